@@ -1793,7 +1793,29 @@ class Engine:
         dom = z3.And([lo <= k, k < hi] + conds)
         if which == "all":
             return VBool(z3.ForAll([k], z3.Implies(dom, body)))
-        return VBool(z3.Exists([k], z3.And(dom, body)))
+        ex = z3.Exists([k], z3.And(dom, body))
+        con0 = getattr(self.vf, "current", None)
+        wexpr = (con0.options.get("witness", {}) if con0 is not None else {}).get(g.target.id)
+        if wexpr is not None and self.goal_mode and self.call_depth == 0:
+            # the contract names a witness for this existential (options.witness): body[w] /\ dom[w] implies the existential,
+            # so offering it as a disjunct is sound and spares the solver the instantiation
+            try:
+                w = self.eval(self.vf.parse_spec(wexpr), frame)
+                wt = self.models.as_int(self, w)
+                if wt is not None:
+                    # re-evaluate the body AT the witness (not a substitution): spec functions then unfold for these terms
+                    saved2 = self.spec_env
+                    self.spec_env = dict(saved2 or {})
+                    self.spec_env[g.target.id] = VInt(wt)
+                    try:
+                        conds_w = [self.truth(self.eval(c, frame)) for c in g.ifs]
+                        body_w = self.truth(self.eval(gen.elt, frame))
+                    finally:
+                        self.spec_env = saved2
+                    ex = z3.Or(ex, z3.And([lo <= wt, wt < hi] + conds_w + [body_w]))
+            except (OutOfSubset, EngineError):
+                pass
+        return VBool(ex)
 
     # ---------------------------------------------------------------- spec evaluation
     def eval_spec(self, expr: str, frame, extra=None) -> V:
@@ -2000,6 +2022,9 @@ class Engine:
                 whole = True
             elif isinstance(eff, tuple):
                 meth = eff[1]
+                if cur.cls == "BytesIO" and meth in ("read", "read1", "tell", "seek", "getvalue"):
+                    fields.add("pos")           # exact model: these never change the content
+                    continue
                 if (cur.cls, meth) in self.models.OBJ_MODELS:
                     whole = True
                     continue
